@@ -149,6 +149,7 @@ whose answer is the returned descriptor, close -/
 theorem C14_createFile_shape (env : Env) (root : Root) (path : Bytes) (flags perm : Nat) {h h' : Hist} {fd : Fd}
     (hr : Runs (Root.createFile env root path flags perm) h h' (.ok fd)) :
     ∃ parent name dir hm rc, Path.pathSplit path = .ok (parent, some name) ∧
+      name ≠ Path.dot ∧ name ≠ Path.dotdot ∧
       Runs (Resolver.resolve env root.resolver root.fd parent false) h hm (.ok dir) ∧
       h' = hm ++ [(Call.openat dir name (flags ||| O_CREAT ||| O_NOFOLLOW ||| O_CLOEXEC ||| O_NOCTTY) perm, Resp.fd fd),
                   (Call.close dir, rc)] := by
@@ -171,9 +172,13 @@ theorem C14_createFile_shape (env : Env) (root : Root) (path : Bytes) (flags per
     subst hx
     rcases hcase with ⟨a, rfl, hxa⟩ | ⟨e, rfl, hfe⟩
     · cases hxa
-      have hu := openat_ok_inv hy
-      refine ⟨parent, name, dir, hm, rc, hsplit, hres, ?_⟩
-      rw [hh4, hclose, hu]; simp
+      unfold Root.createFileOpen at hy
+      split at hy
+      · obtain ⟨_, he⟩ := ret_inv hy; cases he
+      · rename_i hname
+        have hu := openat_ok_inv hy
+        refine ⟨parent, name, dir, hm, rc, hsplit, fun h => hname (Or.inl h), fun h => hname (Or.inr h), hres, ?_⟩
+        rw [hh4, hclose, hu]; simp
     · rcases hfe with ⟨_, hxe⟩ | ⟨_, hxe⟩ <;> cases hxe
 
 /-- **rename**: both parents resolved in-root, one acknowledged rename call on
@@ -288,10 +293,23 @@ open KRun KSim KSpec World KEffect in
 theorem C14_effect_create_file {w : World} (μ : MutK) (hw : w.WF) (r : Resolver) (path parent name : Bytes)
     (hnul : parent.contains 0 = false) (flags perm : Nat) (d : Fd)
     (hsplit : Path.pathSplit path = .ok (parent, some name))
+    (hname : ¬ (name = Path.dot ∨ name = Path.dotdot))
     (hres : resolveInRoot w (if r.emulated then ecfg r.rflags false else kcfgK w r.rflags false) parent = .ok d) :
     exec μ w (Root.createFile (kenv w) { fd := w.root, resolver := r } path flags perm) =
       (μ.eff w (createFileCall d name flags perm), fdOut (μ.ans w (createFileCall d name flags perm)) "openat") :=
-  createFile_effect μ hw r path parent name hnul flags perm d hsplit hres
+  createFile_effect μ hw r path parent name hnul flags perm d hsplit hname hres
+
+open KRun KSim KSpec World KEffect in
+/-- a final component `.` or `..` is not a file that can be created: `create_file` refuses it with `EISDIR` and the
+tree is unchanged, whatever the open flags.  (With `O_PATH` the kernel ignores `O_CREAT`; the `*at` call would be a
+plain lookup of `..` below the parent — for the root, of the directory *outside* it: finding F24.) -/
+theorem C14_frame_create_file_dots {w : World} (μ : MutK) (hw : w.WF) (r : Resolver) (path parent name : Bytes)
+    (hnul : parent.contains 0 = false) (flags perm : Nat) (d : Fd)
+    (hsplit : Path.pathSplit path = .ok (parent, some name))
+    (hname : name = Path.dot ∨ name = Path.dotdot)
+    (hres : resolveInRoot w (if r.emulated then ecfg r.rflags false else kcfgK w r.rflags false) parent = .ok d) :
+    exec μ w (Root.createFile (kenv w) { fd := w.root, resolver := r } path flags perm) = (w, .error (.os EISDIR)) :=
+  createFile_frame_dots μ hw r path parent name hnul flags perm d hsplit hname hres
 
 open KRun KSim KSpec World KEffect in
 theorem C14_effect_rename {w : World} (μ : MutK) (hw : w.WF) (r : Resolver) (src dst p1 n1 p2 n2 : Bytes)
